@@ -738,6 +738,8 @@ func (e *Engine) translateFunc(key string, preCells []*Cell) (res *funcResult) {
 			}
 		}
 	}
+	t.proc.LemmaLine = e.lemmaAxioms
+	t.proc.LemmaFor = fc.LemmaFor
 	obls, err := GenVCs(t.proc, prel)
 	if err != nil {
 		res.Err = err.Error()
